@@ -120,6 +120,9 @@ def lexcmp (p q : Int × Int) : Int :=
   if p.1 < q.1 then -1 else if q.1 < p.1 then 1
   else if p.2 < q.2 then -1 else if p.2 = q.2 then 0 else 1
 
+theorem lexcmp_zero (x y : Int) : lexcmp (0, x) (0, y) = if x < y then -1 else if x = y then 0 else 1 := by
+  simp [lexcmp]
+
 theorem sv_rescale (n : Bool) (c : Nat) (e e' m : Int) (h1 : m ≤ e') (h2 : e' ≤ e) :
     sv n c e m = sv n c e e' * ((pow10 (e' - m).toNat : Nat) : Int) := by
   unfold sv pow10
@@ -166,13 +169,8 @@ theorem compare_eq_key (a b : Dec) (m : Int) (ha : m ≤ expo a) (hb : m ≤ exp
     | fin n' c' e' =>
       show cmpFin n c e n' c' e' = _
       rw [cmpFin_eq n c e n' c' e' m ha hb]
-      simp only [lexcmp, key, Int.lt_irrefl, if_false]
-      split
-      · rename_i h; rw [if_pos h]
-      · rename_i h; rw [if_neg h]
-        split
-        · rename_i h'; rw [if_pos h']
-        · rename_i h'; rw [if_neg h']
+      show _ = lexcmp (0, sv n c e m) (0, sv n' c' e' m)
+      rw [lexcmp_zero]
 
 /-- an exponent below those of three values -/
 def expo3 (a b c : Dec) : Int := min (expo a) (min (expo b) (expo c))
@@ -294,4 +292,541 @@ theorem less_irrefl (a : Dec) : less a a = false := by
   · rw [less_iff, compare_self] at h; omega
 
 end Dec
+
+/-! ### keys -/
+
+def Key.isStr : Key → Bool
+  | .s _ => true
+  | .n _ => false
+
+/-- all keys strings, or all keys numbers (what `keysOf` produces) -/
+def Key.Homog (ks : List Key) : Prop := (∀ k ∈ ks, k.isStr = true) ∨ (∀ k ∈ ks, k.isStr = false)
+
+/-- the comparator of `sortByKeys` on keys: `a ≤ b` as "not `b < a`" -/
+def Key.le (a b : Key) : Bool := !Key.lt b a
+
+/-- a total preorder on *all* keys that agrees with `Key.le` on keys of the same kind
+    (`Key.le` itself is not transitive across kinds) -/
+def Key.leT : Key → Key → Bool
+  | .s a, .s b => bytesLe a b
+  | .n a, .n b => Dec.le a b
+  | .s _, .n _ => true
+  | .n _, .s _ => false
+
+theorem Key.leT_total (a b : Key) : (Key.leT a b || Key.leT b a) = true := by
+  cases a <;> cases b <;> simp [Key.leT, bytesLe_total, Dec.le_total]
+
+theorem Key.leT_trans {a b c : Key} (h1 : Key.leT a b = true) (h2 : Key.leT b c = true) : Key.leT a c = true := by
+  cases a <;> cases b <;> cases c <;> simp_all [Key.leT]
+  · exact bytesLe_trans h1 h2
+  · exact Dec.le_trans h1 h2
+
+theorem Dec.not_lt_eq_le (a b : Dec) : (!decide (Dec.compare b a < 0)) = Dec.le a b := by
+  unfold Dec.le
+  rw [Dec.compare_antisymm a b]
+  by_cases h : Dec.compare a b ≤ 0
+  · have h' : ¬ (-Dec.compare a b < 0) := by omega
+    rw [decide_eq_false h', decide_eq_true h]; rfl
+  · have h' : (-Dec.compare a b < 0) := by omega
+    rw [decide_eq_true h', decide_eq_false h]; rfl
+
+theorem Key.leT_eq_le {a b : Key} (h : a.isStr = b.isStr) : Key.leT a b = Key.le a b := by
+  cases a <;> cases b <;> simp_all [Key.isStr, Key.leT, Key.le, Key.lt, bytesLe]
+  exact (Dec.not_lt_eq_le _ _).symm
+
+theorem Key.Homog.isStr_eq {ks : List Key} (h : Key.Homog ks) {a b : Key} (ha : a ∈ ks) (hb : b ∈ ks) :
+    a.isStr = b.isStr := by
+  rcases h with h | h <;> rw [h a ha, h b hb]
+
+/-! `max_by` / `min_by` comparators -/
+
+theorem Dec.greater_eq_false_iff {a b : Dec} (ha : a.isNaN = false) (hb : b.isNaN = false) :
+    Dec.greater a b = false ↔ Dec.compare a b ≤ 0 := by
+  have := Dec.greater_iff a b
+  have hr := Dec.compare_range a b
+  constructor
+  · intro h
+    rcases hr with h' | h' | h'
+    · omega
+    · omega
+    · have := this.mpr ⟨ha, hb, h'⟩
+      rw [h] at this; cases this
+  · intro h
+    cases hg : Dec.greater a b
+    · rfl
+    · have := (this.mp hg).2.2; omega
+
+theorem Dec.less_eq_false_iff {a b : Dec} (ha : a.isNaN = false) (hb : b.isNaN = false) :
+    Dec.less a b = false ↔ Dec.compare b a ≤ 0 := by
+  have := Dec.less_iff a b
+  have hr := Dec.compare_range a b
+  rw [Dec.compare_antisymm a b]
+  constructor
+  · intro h
+    rcases hr with h' | h' | h'
+    · have := this.mpr ⟨ha, hb, h'⟩
+      rw [h] at this; cases this
+    · omega
+    · omega
+  · intro h
+    cases hg : Dec.less a b
+    · rfl
+    · have := (this.mp hg).2.2; omega
+
+def Key.notNaN : Key → Prop
+  | .n d => d.isNaN = false
+  | .s _ => True
+
+theorem Key.gtMax_irrefl (a : Key) : Key.gtMax a a = false := by
+  cases a <;> simp [Key.gtMax, bytesLt_irrefl, Dec.greater_irrefl]
+
+theorem Key.gtMax_trans {a b c : Key} (h1 : Key.gtMax a b = true) (h2 : Key.gtMax b c = true) :
+    Key.gtMax a c = true := by
+  cases a <;> cases b <;> cases c <;> simp_all [Key.gtMax]
+  · exact bytesLt_trans h2 h1
+  · exact Dec.greater_trans h1 h2
+
+theorem Key.gtMax_negtrans {a b c : Key} (hab : a.isStr = b.isStr) (hbc : b.isStr = c.isStr)
+    (ha : a.notNaN) (hb : b.notNaN) (hc : c.notNaN)
+    (h1 : Key.gtMax a b = false) (h2 : Key.gtMax b c = false) : Key.gtMax a c = false := by
+  cases a <;> cases b <;> cases c <;> simp_all [Key.gtMax, Key.isStr, Key.notNaN]
+  · have := bytesLe_trans (a := _) (b := _) (c := _) (show bytesLe _ _ = true by simpa [bytesLe] using h1)
+      (show bytesLe _ _ = true by simpa [bytesLe] using h2)
+    simpa [bytesLe] using this
+  · rw [Dec.greater_eq_false_iff ha hb] at h1
+    rw [Dec.greater_eq_false_iff hb hc] at h2
+    rw [Dec.greater_eq_false_iff ha hc]
+    exact Dec.compare_trans h1 h2
+
+theorem Key.ltMin_irrefl (a : Key) : Key.ltMin a a = false := by
+  cases a <;> simp [Key.ltMin, bytesLt_irrefl, Dec.less_irrefl]
+
+theorem Key.ltMin_trans {a b c : Key} (h1 : Key.ltMin a b = true) (h2 : Key.ltMin b c = true) :
+    Key.ltMin a c = true := by
+  cases a <;> cases b <;> cases c <;> simp_all [Key.ltMin]
+  · exact bytesLt_trans h1 h2
+  · exact Dec.less_trans h1 h2
+
+theorem Key.ltMin_negtrans {a b c : Key} (hab : a.isStr = b.isStr) (hbc : b.isStr = c.isStr)
+    (ha : a.notNaN) (hb : b.notNaN) (hc : c.notNaN)
+    (h1 : Key.ltMin a b = false) (h2 : Key.ltMin b c = false) : Key.ltMin a c = false := by
+  cases a <;> cases b <;> cases c <;> simp_all [Key.ltMin, Key.isStr, Key.notNaN]
+  · have := bytesLe_trans (a := _) (b := _) (c := _) (show bytesLe _ _ = true by simpa [bytesLe] using h2)
+      (show bytesLe _ _ = true by simpa [bytesLe] using h1)
+    simpa [bytesLe] using this
+  · rw [Dec.less_eq_false_iff ha hb] at h1
+    rw [Dec.less_eq_false_iff hb hc] at h2
+    rw [Dec.less_eq_false_iff ha hc]
+    exact Dec.compare_trans h2 h1
+
+/-! ### generic facts on lists and `mergeSort` -/
+
+section Lists
+variable {α : Type _}
+
+theorem mergeSort_congr {r s : α → α → Bool} {l : List α} (h : ∀ a ∈ l, ∀ b ∈ l, r a b = s a b) :
+    l.mergeSort r = l.mergeSort s := by
+  have := List.map_mergeSort (r := r) (s := s) (f := id) (l := l) (by simpa using h)
+  simpa using this
+
+/-- `mergeSort` with a comparator that coincides *on the members of the list* with a total preorder sorts -/
+theorem pairwise_mergeSort_of_agree {r s : α → α → Bool} {l : List α}
+    (agree : ∀ a ∈ l, ∀ b ∈ l, r a b = s a b)
+    (trans : ∀ a b c, s a b = true → s b c = true → s a c = true)
+    (total : ∀ a b, (s a b || s b a) = true) :
+    (l.mergeSort r).Pairwise (fun a b => r a b = true) := by
+  rw [mergeSort_congr agree]
+  have := List.pairwise_mergeSort (le := s) trans total l
+  refine this.imp_of_mem ?_
+  intro a b ha hb hab
+  rw [List.mem_mergeSort] at ha hb
+  rw [agree a ha b hb]; exact hab
+
+/-- …and is stable -/
+theorem sublist_mergeSort_of_agree {r s : α → α → Bool} {l c : List α}
+    (agree : ∀ a ∈ l, ∀ b ∈ l, r a b = s a b)
+    (trans : ∀ a b c, s a b = true → s b c = true → s a c = true)
+    (total : ∀ a b, (s a b || s b a) = true)
+    (hc : c.Pairwise (fun a b => r a b = true)) (hs : c.Sublist l) : c.Sublist (l.mergeSort r) := by
+  rw [mergeSort_congr agree]
+  refine List.sublist_mergeSort (le := s) trans total ?_ hs
+  refine hc.imp_of_mem ?_
+  intro a b ha hb hab
+  rw [← agree a (hs.subset ha) b (hs.subset hb)]; exact hab
+
+theorem getElem_pair_sublist : ∀ (l : List α) (i j : Nat) (_ : i < j) (hj : j < l.length),
+    [l[i]'(by omega), l[j]].Sublist l
+  | [], _, _, _, hj => by simp at hj
+  | x :: t, 0, j + 1, _, hj => by
+    simp only [List.getElem_cons_zero, List.getElem_cons_succ]
+    exact List.Sublist.cons_cons x (List.singleton_sublist.mpr (List.getElem_mem _))
+  | x :: t, i + 1, j + 1, hij, hj => by
+    simp only [List.getElem_cons_succ]
+    exact (getElem_pair_sublist t i j (by omega) (by simpa using hj)).cons x
+
+/-- the linear scan shared by `max`, `min`, `max_by`, `min_by`: keep the current best unless the next one is
+    strictly better -/
+def scan (better : α → α → Bool) : α → List α → α
+  | m, [] => m
+  | m, x :: rest => if better x m then scan better x rest else scan better m rest
+
+theorem scan_spec_aux (better : α → α → Bool)
+    (irrefl : ∀ a, better a a = false)
+    (trans : ∀ a b c, better a b = true → better b c = true → better a c = true)
+    (nt : Prop) (S : α → Prop)
+    (negtrans : nt → ∀ a b c, S a → S b → S c → better a b = false → better b c = false → better a c = false) :
+    ∀ (rest pre mid : List α) (m : α),
+      (∀ p, (p ∈ pre ∨ p = m ∨ p ∈ mid ∨ p ∈ rest) → S p) →
+      (∀ p ∈ pre, better p m = false) → (∀ p ∈ mid, better p m = false) →
+      (nt → ∀ p ∈ pre, better m p = true) →
+      ∃ pre' post, pre ++ (m :: (mid ++ rest)) = pre' ++ (scan better m rest :: post) ∧
+        (∀ p, (p ∈ pre ∨ p = m ∨ p ∈ mid ∨ p ∈ rest) → better p (scan better m rest) = false) ∧
+        (nt → ∀ p ∈ pre', better (scan better m rest) p = true)
+  | [], pre, mid, m, _, h1, h2, h3 => by
+    refine ⟨pre, mid, by simp [scan], ?_, by simpa [scan] using h3⟩
+    intro p hp
+    simp only [scan]
+    rcases hp with hp | hp | hp | hp
+    · exact h1 p hp
+    · rw [hp]; exact irrefl m
+    · exact h2 p hp
+    · cases hp
+  | x :: rest, pre, mid, m, hS, h1, h2, h3 => by
+    by_cases hx : better x m = true
+    · have key := scan_spec_aux better irrefl trans nt S negtrans rest (pre ++ (m :: mid)) [] x
+        (by
+          intro p hp; apply hS
+          simp only [List.mem_append, List.mem_cons, List.not_mem_nil, false_or] at hp ⊢
+          rcases hp with (hp | hp | hp) | hp | hp <;> simp [hp])
+        (by
+          intro p hp
+          simp only [List.mem_append, List.mem_cons] at hp
+          cases hpx : better p x
+          · rfl
+          · have hpm := trans p x m hpx hx
+            rcases hp with hp | hp | hp
+            · rw [h1 p hp] at hpm; cases hpm
+            · rw [hp, irrefl] at hpm; cases hpm
+            · rw [h2 p hp] at hpm; cases hpm)
+        (by simp)
+        (by
+          intro hnt p hp
+          simp only [List.mem_append, List.mem_cons] at hp
+          rcases hp with hp | hp | hp
+          · exact trans x m p hx (h3 hnt p hp)
+          · rw [hp]; exact hx
+          · cases hxp : better x p
+            · have := negtrans hnt x p m (hS x (by simp)) (hS p (by simp [hp])) (hS m (by simp)) hxp (h2 p hp)
+              rw [hx] at this; cases this
+            · rfl)
+      obtain ⟨pre', post, e1, e2, e3⟩ := key
+      refine ⟨pre', post, ?_, ?_, ?_⟩
+      · simp only [scan, hx, if_true]
+        rw [← e1]; simp
+      · intro p hp
+        simp only [scan, hx, if_true]
+        apply e2
+        simp only [List.mem_append, List.mem_cons, List.not_mem_nil, false_or] at hp ⊢
+        rcases hp with hp | hp | hp | hp | hp <;> simp [hp]
+      · simpa only [scan, hx, if_true] using e3
+    · have hx' : better x m = false := by simpa using hx
+      have key := scan_spec_aux better irrefl trans nt S negtrans rest pre (mid ++ [x]) m
+        (by
+          intro p hp; apply hS
+          simp only [List.mem_append, List.mem_cons, List.not_mem_nil, or_false] at hp ⊢
+          rcases hp with hp | hp | (hp | hp) | hp <;> simp [hp])
+        h1
+        (by
+          intro p hp
+          simp only [List.mem_append, List.mem_cons, List.not_mem_nil, or_false] at hp
+          rcases hp with hp | hp
+          · exact h2 p hp
+          · rw [hp]; exact hx')
+        h3
+      obtain ⟨pre', post, e1, e2, e3⟩ := key
+      refine ⟨pre', post, ?_, ?_, ?_⟩
+      · simp only [scan, hx', Bool.false_eq_true, if_false]
+        rw [← e1]; simp
+      · intro p hp
+        simp only [scan, hx', Bool.false_eq_true, if_false]
+        apply e2
+        simp only [List.mem_append, List.mem_cons, List.not_mem_nil, or_false] at hp ⊢
+        rcases hp with hp | hp | hp | hp | hp <;> simp [hp]
+      · simpa only [scan, hx', Bool.false_eq_true, if_false] using e3
+
+/-- The scan returns a member of the list that no member beats; when "not better" is transitive on the members
+    (a strict weak order) it is the *first* such member: it beats every earlier one. -/
+theorem scan_spec (better : α → α → Bool)
+    (irrefl : ∀ a, better a a = false)
+    (trans : ∀ a b c, better a b = true → better b c = true → better a c = true)
+    (m : α) (l : List α) :
+    ∃ pre post, m :: l = pre ++ scan better m l :: post ∧
+      (∀ p ∈ m :: l, better p (scan better m l) = false) ∧
+      (∀ S : α → Prop, (∀ p ∈ m :: l, S p) →
+        (∀ a b c, S a → S b → S c → better a b = false → better b c = false → better a c = false) →
+        ∀ p ∈ pre, better (scan better m l) p = true) := by
+  classical
+  let S : α → Prop := fun p => p ∈ m :: l
+  let NT : Prop := ∀ a b c, S a → S b → S c → better a b = false → better b c = false → better a c = false
+  obtain ⟨pre, post, h1, h2, h3⟩ := scan_spec_aux better irrefl trans NT S (fun h => h) l [] [] m
+    (by intro p hp; simpa [S] using hp) (by simp) (by simp) (by simp)
+  refine ⟨pre, post, by simpa using h1, ?_, ?_⟩
+  · intro p hp; apply h2; simpa using hp
+  · intro S' hS' hnt
+    apply h3
+    intro a b c ha hb hc
+    exact hnt a b c (hS' a ha) (hS' b hb) (hS' c hc)
+
+/-! #### uniqueness of the stable sort -/
+
+/-- `l'` keeps every `le`-sorted subsequence of `l` (the strong form of stability, `List.sublist_mergeSort`) -/
+def StableWrt (le : α → α → Bool) (l l' : List α) : Prop :=
+  ∀ c : List α, c.Sublist l → c.Pairwise (fun a b => le a b = true) → c.Sublist l'
+
+/-- `l'` keeps the relative order of every pair of `l` that is in order (`List.pair_sublist_mergeSort`) -/
+def PairStableWrt (le : α → α → Bool) (l l' : List α) : Prop :=
+  ∀ a b : α, [a, b].Sublist l → le a b = true → [a, b].Sublist l'
+
+/-- equivalence under a preorder -/
+def eqv (le : α → α → Bool) (a x : α) : Bool := le a x && le x a
+
+theorem filter_eqv_eq_of_stable {le : α → α → Bool}
+    (trans : ∀ a b c, le a b = true → le b c = true → le a c = true)
+    {l l' : List α} (hp : l'.Perm l) (hs : StableWrt le l l') (a : α) :
+    l'.filter (eqv le a) = l.filter (eqv le a) := by
+  have hsub : (l.filter (eqv le a)).Sublist l' := by
+    apply hs _ List.filter_sublist
+    rw [List.pairwise_filter]
+    apply List.pairwise_of_forall
+    intro x y hx hy
+    simp only [eqv, Bool.and_eq_true] at hx hy
+    exact trans x a y hx.2 hy.1
+  have h2 := hsub.filter (eqv le a)
+  rw [List.filter_filter] at h2
+  simp only [Bool.and_self] at h2
+  exact (h2.eq_of_length (hp.filter _).length_eq.symm).symm
+
+theorem sorted_eq_of_filter_eqv_eq {le : α → α → Bool}
+    (total : ∀ a b, (le a b || le b a) = true) :
+    ∀ (l1 l2 : List α), l1.Pairwise (fun a b => le a b = true) → l2.Pairwise (fun a b => le a b = true) →
+      (∀ a, l1.filter (eqv le a) = l2.filter (eqv le a)) → l1 = l2 := by
+  have refl : ∀ a, le a a = true := fun a => by simpa using total a a
+  have erefl : ∀ a, eqv le a a = true := fun a => by simp [eqv, refl]
+  intro l1
+  induction l1 with
+  | nil =>
+    intro l2 _ _ h
+    cases l2 with
+    | nil => rfl
+    | cons b t2 =>
+      have := h b
+      simp [erefl] at this
+  | cons a t1 ih =>
+    intro l2 s1 s2 h
+    cases l2 with
+    | nil =>
+      have := h a
+      simp [erefl] at this
+    | cons b t2 =>
+      have hba : le b a = true := by
+        have : a ∈ (b :: t2).filter (eqv le a) := by rw [← h a]; simp [erefl]
+        rcases List.mem_cons.mp (List.mem_filter.mp this).1 with e | e
+        · rw [e]; exact refl b
+        · exact List.rel_of_pairwise_cons s2 e
+      have hab : le a b = true := by
+        have : b ∈ (a :: t1).filter (eqv le b) := by rw [h b]; simp [erefl]
+        rcases List.mem_cons.mp (List.mem_filter.mp this).1 with e | e
+        · rw [e]; exact refl a
+        · exact List.rel_of_pairwise_cons s1 e
+      have heab : eqv le a b = true := by simp [eqv, hab, hba]
+      have e : a = b := by
+        have := h a
+        simp only [List.filter_cons, erefl, heab, if_true] at this
+        exact (List.cons.inj this).1
+      subst e
+      congr 1
+      apply ih t2 (List.pairwise_cons.mp s1).2 (List.pairwise_cons.mp s2).2
+      intro c
+      have := h c
+      simp only [List.filter_cons] at this
+      split at this
+      · exact (List.cons.inj this).2
+      · exact this
+
+/-- **The stable sort is unique**: for a total preorder, two sorted permutations of `l` that both keep every sorted
+    subsequence of `l` are equal. So specifying `sort.Stable` as `List.mergeSort` only says "it is stable". -/
+theorem stable_sort_unique {le : α → α → Bool}
+    (trans : ∀ a b c, le a b = true → le b c = true → le a c = true)
+    (total : ∀ a b, (le a b || le b a) = true)
+    {l l1 l2 : List α} (p1 : l1.Perm l) (p2 : l2.Perm l)
+    (s1 : l1.Pairwise (fun a b => le a b = true)) (s2 : l2.Pairwise (fun a b => le a b = true))
+    (st1 : StableWrt le l l1) (st2 : StableWrt le l l2) : l1 = l2 := by
+  apply sorted_eq_of_filter_eqv_eq total l1 l2 s1 s2
+  intro a
+  rw [filter_eqv_eq_of_stable trans p1 st1, filter_eqv_eq_of_stable trans p2 st2]
+
+/-- `mergeSort` is such a list. -/
+theorem mergeSort_is_stable_sort {le : α → α → Bool}
+    (trans : ∀ a b c, le a b = true → le b c = true → le a c = true)
+    (total : ∀ a b, (le a b || le b a) = true) (l : List α) :
+    (l.mergeSort le).Perm l ∧ (l.mergeSort le).Pairwise (fun a b => le a b = true) ∧
+      StableWrt le l (l.mergeSort le) :=
+  ⟨List.mergeSort_perm l le, List.pairwise_mergeSort trans total l,
+    fun _ hs hc => List.sublist_mergeSort trans total hc hs⟩
+
+/-! pair-wise stability is enough when the elements are distinct (e.g. tagged with their positions) -/
+
+theorem pair_sublist_or {x y : α} (hne : x ≠ y) : ∀ {l : List α}, x ∈ l → y ∈ l →
+    [x, y].Sublist l ∨ [y, x].Sublist l
+  | [], hx, _ => by cases hx
+  | z :: t, hx, hy => by
+    rcases List.mem_cons.mp hx with ex | ex
+    · rcases List.mem_cons.mp hy with ey | ey
+      · exact absurd (ex.trans ey.symm) hne
+      · left; rw [ex]; exact List.Sublist.cons_cons z (List.singleton_sublist.mpr ey)
+    · rcases List.mem_cons.mp hy with ey | ey
+      · right; rw [ey]; exact List.Sublist.cons_cons z (List.singleton_sublist.mpr ex)
+      · rcases pair_sublist_or hne ex ey with h | h
+        · exact .inl (h.cons z)
+        · exact .inr (h.cons z)
+
+theorem not_both_pair_sublist {x y : α} : ∀ {l : List α}, l.Nodup → [x, y].Sublist l → [y, x].Sublist l → False
+  | [], _, h, _ => by cases h
+  | z :: t, hn, h1, h2 => by
+    obtain ⟨hz, hn'⟩ := List.nodup_cons.mp hn
+    rcases List.sublist_cons_iff.mp h1 with h1 | ⟨r, e, h1⟩
+    · rcases List.sublist_cons_iff.mp h2 with h2 | ⟨r', e', h2⟩
+      · exact not_both_pair_sublist hn' h1 h2
+      · have ey : y = z := (List.cons.inj e').1
+        exact hz (ey ▸ h1.subset (by simp))
+    · have ex : x = z := (List.cons.inj e).1
+      have er : [y] = r := (List.cons.inj e).2
+      rcases List.sublist_cons_iff.mp h2 with h2 | ⟨r', e', h2⟩
+      · exact hz (ex ▸ h2.subset (by simp))
+      · have ey : y = z := (List.cons.inj e').1
+        subst er
+        exact hz (ey ▸ h1.subset (by simp))
+
+theorem eq_of_same_pair_order : ∀ (l1 l2 : List α), l1.Nodup → l2.Nodup → l1.Perm l2 →
+    (∀ x y, [x, y].Sublist l1 → [x, y].Sublist l2) → l1 = l2
+  | [], l2, _, _, hp, _ => (List.nil_perm.mp hp).symm
+  | a :: t1, [], _, _, hp, _ => by have := hp.length_eq; simp at this
+  | a :: t1, b :: t2, n1, n2, hp, h => by
+    obtain ⟨ha, n1'⟩ := List.nodup_cons.mp n1
+    obtain ⟨hb, n2'⟩ := List.nodup_cons.mp n2
+    have e : a = b := by
+      apply Classical.byContradiction
+      intro hne
+      have hbt : b ∈ t1 := by
+        have : b ∈ a :: t1 := hp.mem_iff.mpr (by simp)
+        rcases List.mem_cons.mp this with e | e
+        · exact absurd e.symm hne
+        · exact e
+      have h1 : [a, b].Sublist (a :: t1) := List.Sublist.cons_cons a (List.singleton_sublist.mpr hbt)
+      rcases List.sublist_cons_iff.mp (h a b h1) with h2 | ⟨r, e, _⟩
+      · exact hb (h2.subset (by simp))
+      · exact hne (List.cons.inj e).1
+    subst e
+    congr 1
+    apply eq_of_same_pair_order t1 t2 n1' n2' hp.cons_inv
+    intro x y hxy
+    rcases List.sublist_cons_iff.mp (h x y (hxy.cons a)) with h2 | ⟨r, e, _⟩
+    · exact h2
+    · have : x = a := (List.cons.inj e).1
+      exact absurd (this ▸ hxy.subset (by simp)) ha
+
+/-- For a list without duplicates, keeping the order of every in-order *pair* already determines the sorted
+    permutation. (With duplicates it does not: see `C13.pair_stability_not_enough`.) -/
+theorem stable_sort_unique_of_nodup {le : α → α → Bool}
+    {l l1 l2 : List α} (hn : l.Nodup) (p1 : l1.Perm l) (p2 : l2.Perm l)
+    (s1 : l1.Pairwise (fun a b => le a b = true)) (s2 : l2.Pairwise (fun a b => le a b = true))
+    (st1 : PairStableWrt le l l1) (st2 : PairStableWrt le l l2) : l1 = l2 := by
+  have n1 : l1.Nodup := p1.nodup_iff.mpr hn
+  have n2 : l2.Nodup := p2.nodup_iff.mpr hn
+  have key : ∀ (l1 l2 : List α), l1.Nodup → l2.Nodup → l1.Perm l → l2.Perm l →
+      l1.Pairwise (fun a b => le a b = true) → l2.Pairwise (fun a b => le a b = true) →
+      PairStableWrt le l l1 → PairStableWrt le l l2 → ∀ x y, [x, y].Sublist l1 → [x, y].Sublist l2 := by
+    intro l1 l2 n1 n2 p1 p2 s1 s2 st1 st2 x y hxy
+    have hne : x ≠ y := by
+      intro e; subst e; exact not_both_pair_sublist n1 hxy hxy
+    have hx1 : x ∈ l1 := hxy.subset (by simp)
+    have hy1 : y ∈ l1 := hxy.subset (by simp)
+    have hle : le x y = true := by
+      have := List.Pairwise.sublist hxy s1
+      simpa using this
+    rcases pair_sublist_or hne (p1.mem_iff.mp hx1) (p1.mem_iff.mp hy1) with h | h
+    · exact st2 x y h hle
+    · cases hyx : le y x
+      · rcases pair_sublist_or hne (p2.mem_iff.mpr (p1.mem_iff.mp hx1)) (p2.mem_iff.mpr (p1.mem_iff.mp hy1))
+          with h' | h'
+        · exact h'
+        · have := List.Pairwise.sublist h' s2
+          simp [hyx] at this
+      · exact absurd (st1 y x h hyx) (fun h' => not_both_pair_sublist n1 hxy h')
+  exact eq_of_same_pair_order l1 l2 n1 n2 (p1.trans p2.symm) (key l1 l2 n1 n2 p1 p2 s1 s2 st1 st2)
+
+end Lists
+
+/-! ### bytewise order of UTF-8 = code point order -/
+
+theorem encodeRune_lt (r s : Nat) (hr : isScalar r = true) (hs : isScalar s = true) (h : r < s) (A B : Bytes) :
+    bytesLt (encodeRune r ++ A) (encodeRune s ++ B) = true := by
+  unfold encodeRune
+  simp only [hr, hs, not_true_eq_false, if_false]
+  split <;> split <;> (try split) <;> (try split) <;> (try split) <;> (try split) <;>
+    simp only [List.cons_append, List.nil_append, bytesLt] <;>
+    (try omega) <;>
+    (repeat' split) <;> (try rfl) <;> omega
+
+theorem encodeRune_cons (r : Nat) : ∃ b t, encodeRune r = b :: t := by
+  unfold encodeRune
+  split
+  · exact ⟨_, _, rfl⟩
+  · split
+    · exact ⟨_, _, rfl⟩
+    · split
+      · exact ⟨_, _, rfl⟩
+      · split <;> exact ⟨_, _, rfl⟩
+
+theorem bytesLt_append_left : ∀ (p a b : Bytes), bytesLt (p ++ a) (p ++ b) = bytesLt a b
+  | [], _, _ => rfl
+  | x :: p, a, b => by
+    simp only [List.cons_append, bytesLt, Nat.lt_irrefl, gt_iff_lt, if_false]
+    exact bytesLt_append_left p a b
+
+theorem encodeAll_cons' (c : Nat) (cs : List Nat) : encodeAll (c :: cs) = encodeRune c ++ encodeAll cs := by
+  simp [encodeAll]
+
+/-- For valid UTF-8 (the encoding of a list of scalar values), Go's bytewise string `<` is the lexicographic order
+    of the code point sequences (`bytesLt` on `List Nat` *is* lexicographic order). -/
+theorem bytesLt_codepoint_order : ∀ (ra rb : List Nat),
+    (∀ r ∈ ra, isScalar r = true) → (∀ r ∈ rb, isScalar r = true) →
+    bytesLt (encodeAll ra) (encodeAll rb) = bytesLt ra rb
+  | [], [], _, _ => rfl
+  | [], s :: rb, _, _ => by
+    rw [encodeAll_cons']
+    obtain ⟨b, t, e⟩ := encodeRune_cons s
+    rw [e]; rfl
+  | r :: ra, [], _, _ => by
+    rw [encodeAll_cons']
+    obtain ⟨b, t, e⟩ := encodeRune_cons r
+    rw [e]; rfl
+  | r :: ra, s :: rb, ha, hb => by
+    have hr := ha r (by simp)
+    have hs := hb s (by simp)
+    rw [encodeAll_cons', encodeAll_cons']
+    simp only [bytesLt]
+    by_cases h1 : r < s
+    · simp only [h1, if_true]
+      exact encodeRune_lt r s hr hs h1 _ _
+    · by_cases h2 : r > s
+      · simp only [h1, h2, if_true, if_false]
+        exact bytesLt_asymm (encodeRune_lt s r hs hr h2 _ _)
+      · have e : r = s := by omega
+        subst e
+        simp only [h1, if_false]
+        rw [bytesLt_append_left]
+        exact bytesLt_codepoint_order ra rb (fun x hx => ha x (List.mem_cons_of_mem _ hx))
+          (fun x hx => hb x (List.mem_cons_of_mem _ hx))
+
 end Jmes
